@@ -135,9 +135,11 @@ def parse_as(form, text, fmt, scratch, base=None):
                 with open(p, "rb") as f: ds.parse(file=f, **kw)
         finally:
             os.remove(p)
-    elif form == "bytes-utf16":
-        # XML documents declare their own encoding (handed over as a binary file object: data=bytes is documented as UTF-8)
-        ds.parse(file=io.BytesIO(text.replace('encoding="utf-8"', 'encoding="utf-16"', 1).encode("utf-16")), **kw)
+    elif form in ("bytes-utf16", "bytesio-utf16"):
+        # an XML document declares its own encoding: as bytes (or a binary file object) it is decoded by the XML parser
+        raw = text.replace('encoding="utf-8"', 'encoding="utf-16"', 1).encode("utf-16")
+        if form == "bytes-utf16": ds.parse(data=raw, **kw)
+        else: ds.parse(file=io.BytesIO(raw), **kw)
     elif form == "inputsource":
         from rdflib.parser import StringInputSource
         ds.parse(source=StringInputSource(text), **kw)
@@ -188,7 +190,7 @@ def run_case(case, st=None):
             return ("wrong-graph", "%s document read as a different graph:\nexpected %d statements, got %d\nonly expected: %s\nonly got: %s\n%s" % (
                 fmt, len(quads), len(got), [x for x in ek if x not in gk][:3], [x for x in gk if x not in ek][:3], text[:1500]))
         if case.get("forms"):
-            for form in FORMS + (["bytes-utf16"] if fmt == "xml" else []):
+            for form in FORMS + (["bytes-utf16", "bytesio-utf16"] if fmt == "xml" else []):
                 try:
                     d2 = parse_as(form, text, fmt, SCRATCH)
                 except Exception as ex:
@@ -295,7 +297,7 @@ def lane_out(ctx):
 
 
 LANES = {"spell": dict(fn=lane_spell, quick=20000, thorough=400000), "out": dict(fn=lane_out, quick=12000, thorough=240000)}
-REQUIRED_COUNTERS = {"any": ["cmp:parse:" + f for f in SPELL_FMTS] + ["cmp:form:" + f for f in FORMS + ["bytes-utf16"]] +
+REQUIRED_COUNTERS = {"any": ["cmp:parse:" + f for f in SPELL_FMTS] + ["cmp:form:" + f for f in FORMS + ["bytes-utf16", "bytesio-utf16"]] +
                      ["cmp:strict-accept:nt", "cmp:strict-accept:nquads", "cmp:strict-same-graph:nt", "cmp:strict-same-graph:nquads",
                       "cmp:wellformed:xml", "cmp:wellformed:pretty-xml", "cmp:wellformed:trix", "cmp:wellformed:json-ld"]}
 
